@@ -782,6 +782,22 @@ impl Server {
                             should_close = true;
                         }
                         
+                        // Pub/sub commands write their confirmations straight to the connection:
+                        // hand over the replies collected so far first, so replies keep request order
+                        if matches!(command.as_str(), "SUBSCRIBE" | "UNSUBSCRIBE" | "PSUBSCRIBE" | "PUNSUBSCRIBE")
+                            && !responses.is_empty()
+                        {
+                            let pending: Vec<RespFrame> = std::mem::take(&mut responses);
+                            self.connections.with_connection(id, |conn| {
+                                for response in &pending {
+                                    if let RespFrame::NoResponse = response {
+                                        continue;
+                                    }
+                                    let _ = conn.send_frame(response);
+                                }
+                            });
+                        }
+                        
                         // Handle SYNC/PSYNC commands that need connection access
                         if command == "SYNC" || command == "PSYNC" {
                             sync_response = Some(self.handle_sync_command(&command, parts, id)?);
